@@ -178,6 +178,16 @@ def b_and(*xs):
         return TRUE
     if len(ys) == 1:
         return ys[0]
+    # -k <= d && d <= k  is  |d| <= k  (also for NaN: both are false), the same for the strict pair
+    for cmp_ in ('fle', 'flt'):
+        lows = [y for y in ys if y.op == cmp_ and is_const(y.args[0]) and not is_const(y.args[1]) and csize(y.args[0]) in (4, 8)]
+        for lo in lows:
+            for hi in ys:
+                if hi.op == cmp_ and hi.args[0] is lo.args[1] and is_const(hi.args[1]) and csize(hi.args[1]) == csize(lo.args[0]):
+                    k_ = f_of(hi.args[1])
+                    if k_ > 0 and f_of(lo.args[0]) == -k_:
+                        rest = [y for y in ys if y is not lo and y is not hi]
+                        return b_and(f2(cmp_, f1('fabs', lo.args[1]), hi.args[1]), *rest)
     ys.sort()
     return mk('and', *ys)
 
@@ -452,6 +462,19 @@ def iop(op, ty, a, b):
         return ite(a.args[0], iop(op, ty, a.args[1], b), iop(op, ty, a.args[2], b))
     if is_const(a) and b.op == 'ite' and _const_leaves(b):
         return ite(b.args[0], iop(op, ty, a, b.args[1]), iop(op, ty, a, b.args[2]))
+    # popcount of k possibly-set bits compared with a constant: == k is "all set", == 0 is "none set"
+    if op in ('eq', 'ne') and ((a.op == 'popcnt' and is_const(b)) or (b.op == 'popcnt' and is_const(a))):
+        pc, kc = (a, b) if a.op == 'popcnt' else (b, a)
+        kv = cbits(kc)
+        r_ = None
+        if kv == len(pc.args):
+            r_ = b_and(*pc.args)
+        elif kv == 0:
+            r_ = b_not(b_or(*pc.args))
+        elif kv > len(pc.args):
+            r_ = FALSE
+        if r_ is not None:
+            return r_ if op == 'eq' else b_not(r_)
     # bit-level reasoning (movemask & 7, == 7, != 0, >> k)
     if op == 'lt' and not signed and is_const(a) and cbits(a) == 0 and b.op in _BITSY_OPS:
         bb0 = bits_of(b, bits)
@@ -591,6 +614,8 @@ def iun(op, ty, a):
             return const(_wrap(-x, bits), bits // 8)
         if op == 'not':
             return const(_wrap(~x, bits), bits // 8)
+    if op == 'neg' and a.op == 'b2i':
+        return mask(a.args[0], bits // 8)          # 0 - (b as uN): zero or all ones
     if op == 'not':
         m = mask_bool(a)
         if m is not None and a.op in ('m8', 'm16', 'm32', 'm64'):
